@@ -16,7 +16,7 @@ type Goroutine struct {
 	Raw    string
 }
 
-var gorHead = regexp.MustCompile(`^goroutine (\d+) \[([^\]]*)\]:`)
+var gorHead = regexp.MustCompile(`^goroutine (\d+)(?: gp=\S+)?(?: m=\S+)?(?: mp=\S+)? \[([^\]]*)\]:`)
 
 // Goroutines returns the parsed dump of all goroutines.
 func Goroutines() []Goroutine {
